@@ -95,7 +95,7 @@ var (
 
 func env() []string {
 	e := os.Environ()
-	return append(e, "GOFLAGS=-mod=mod", "GOPROXY=off", "GOSUMDB=off", "GOTOOLCHAIN=local", "CGO_ENABLED="+cgo())
+	return append(e, "GOFLAGS=-mod=mod", "GOPROXY=off", "GOSUMDB=off", "GOTOOLCHAIN=local", "CGO_ENABLED="+cgo(), "VERIF_DIR="+verifDir)
 }
 
 var needRace bool
@@ -647,6 +647,19 @@ func collectTraceMismatches(cfg *propCfg, leg legCfg, traceFile, tlcOut string, 
 		}
 		exp, _ := json.Marshal(ms)
 		detail := fmt.Sprintf("recorded execution is not a behaviour of %s: mismatching events %v; specification expects %s", leg.Module, kinds, tail(string(exp), 1200))
+		// a history that uses constructs no listed property makes a claim about (the worker marks them): the
+		// specification models them as coded and the disagreement is reported, but not as a violation
+		if len(hist) > 0 {
+			if call, ok := hist[0].(map[string]any); ok {
+				if b, _ := call["beyond"].([]any); len(b) > 0 {
+					api = false
+					detail = fmt.Sprintf("[beyond the listed properties: %v] ", b) + detail
+					if sql, _ := call["sql"].(string); sql != "" {
+						detail += " :: " + sql
+					}
+				}
+			}
+		}
 		if !api {
 			res.mu.Lock()
 			res.driftN++
